@@ -1,5 +1,7 @@
 import ModVerif.AuditCmd
 import ModVerif.Props.C12
 import ModVerif.Tie.Zip
+import ModVerif.Tie.FnZip
 #audit_module ModVerif.Props.C12
 #audit_module ModVerif.Tie.Zip
+#audit_module ModVerif.Tie.FnZip
